@@ -343,6 +343,8 @@ func checkG2(prop, tier string) int {
 					for vi, v := range cr.Viols {
 						if !seen[v.Sig] {
 							seen[v.Sig] = true
+							// the replay file named in the VIOLATION line carries the schedule itself
+							v.Replay = map[string]any{"tier": tier, "program": pi, "program_name": p.Name, "desc": desc, "schedule": cr.ViolSched[vi]}
 							viols = append(viols, v)
 							writeReplay(prop+"-sched", map[string]any{"property": prop, "engine": "G2", "tier": tier, "program": pi, "program_name": p.Name, "desc": desc, "schedule": cr.ViolSched[vi], "signature": v.Sig, "message": v.Msg})
 						}
